@@ -1,0 +1,142 @@
+//! Serialiser for a parsed [`Problem`], used by external verification tooling.
+//! Only compiled with the `verif-hooks` feature.
+
+use super::{Problem, instruction::*};
+use crate::datatypes::outputs::Component;
+
+fn comp(c: &Component) -> &'static str {
+    match c {
+        Component::X => "x",
+        Component::Y => "y",
+    }
+}
+
+fn num(v: f64) -> String {
+    format!("#{}", v.to_bits())
+}
+
+impl Problem {
+    /// One line per parsed item, in a fixed format: labels verbatim, numbers as `#<f64 bits>`.
+    pub fn verif_dump(&self) -> Vec<String> {
+        let mut out = Vec::new();
+        for instr in &self.instructions {
+            let line = match instr {
+                Instruction::DeclarePoint(d) => format!("DeclarePoint {}", d.label.0),
+                Instruction::DeclareCircle(d) => format!("DeclareCircle {}", d.label.0),
+                Instruction::DeclareArc(d) => format!("DeclareArc {}", d.label.0),
+                Instruction::FixPointComponent(f) => format!(
+                    "FixPointComponent {} {} {}",
+                    f.point.0,
+                    comp(&f.component),
+                    num(f.value)
+                ),
+                Instruction::Vertical(v) => format!("Vertical {} {}", v.label.0.0, v.label.1.0),
+                Instruction::Horizontal(v) => {
+                    format!("Horizontal {} {}", v.label.0.0, v.label.1.0)
+                }
+                Instruction::Distance(d) => format!(
+                    "Distance {} {} {}",
+                    d.label.0.0,
+                    d.label.1.0,
+                    num(d.distance)
+                ),
+                Instruction::Parallel(p) => format!(
+                    "Parallel {} {} {} {}",
+                    p.line0.0.0, p.line0.1.0, p.line1.0.0, p.line1.1.0
+                ),
+                Instruction::Perpendicular(p) => format!(
+                    "Perpendicular {} {} {} {}",
+                    p.line0.0.0, p.line0.1.0, p.line1.0.0, p.line1.1.0
+                ),
+                Instruction::AngleLine(a) => {
+                    // `Angle`'s fields are private; its `Display` ends in the unit, and the
+                    // accessor for the stored unit returns the stored value unchanged.
+                    let is_degrees = a.angle.to_string().ends_with("deg");
+                    let value = if is_degrees {
+                        a.angle.to_degrees()
+                    } else {
+                        a.angle.to_radians()
+                    };
+                    format!(
+                        "AngleLine {} {} {} {} {} {}",
+                        a.line0.0.0,
+                        a.line0.1.0,
+                        a.line1.0.0,
+                        a.line1.1.0,
+                        if is_degrees { "deg" } else { "rad" },
+                        num(value)
+                    )
+                }
+                Instruction::PointsCoincident(p) => {
+                    format!("PointsCoincident {} {}", p.point0.0, p.point1.0)
+                }
+                Instruction::PointArcCoincident(p) => {
+                    format!("PointArcCoincident {} {}", p.point.0, p.arc.0)
+                }
+                Instruction::Midpoint(m) => {
+                    format!("Midpoint {} {} {}", m.point0.0, m.point1.0, m.mp.0)
+                }
+                Instruction::Symmetric(s) => format!(
+                    "Symmetric {} {} {} {}",
+                    s.line.0.0, s.line.1.0, s.p0.0, s.p1.0
+                ),
+                Instruction::CircleRadius(c) => {
+                    format!("CircleRadius {} {}", c.circle.0, num(c.radius))
+                }
+                Instruction::Tangent(t) => {
+                    format!("Tangent {} {} {}", t.line_p0.0, t.line_p1.0, t.circle.0)
+                }
+                Instruction::ArcRadius(a) => {
+                    format!("ArcRadius {} {}", a.arc_label.0, num(a.radius))
+                }
+                Instruction::FixCenterPointComponent(f) => format!(
+                    "FixCenterPointComponent {} {} {}",
+                    f.object.0,
+                    comp(&f.center_component),
+                    num(f.value)
+                ),
+                Instruction::LinesEqualLength(p) => format!(
+                    "LinesEqualLength {} {} {} {}",
+                    p.line0.0.0, p.line0.1.0, p.line1.0.0, p.line1.1.0
+                ),
+                Instruction::IsArc(a) => format!("IsArc {}", a.arc_label.0),
+                Instruction::PointLineDistance(p) => format!(
+                    "PointLineDistance {} {} {} {}",
+                    p.point.0,
+                    p.line_p0.0,
+                    p.line_p1.0,
+                    num(p.distance)
+                ),
+                Instruction::Line(l) => format!("Line {} {}", l.p0.0, l.p1.0),
+                Instruction::ArcLength(a) => {
+                    format!("ArcLength {} {}", a.arc.0, num(a.distance))
+                }
+            };
+            out.push(line);
+        }
+        for p in &self.inner_points {
+            out.push(format!("InnerPoint {}", p.0));
+        }
+        for p in &self.inner_circles {
+            out.push(format!("InnerCircle {}", p.0));
+        }
+        for p in &self.inner_arcs {
+            out.push(format!("InnerArc {}", p.0));
+        }
+        for (a, b) in &self.inner_lines {
+            out.push(format!("InnerLine {} {}", a.0, b.0));
+        }
+        for g in &self.point_guesses {
+            out.push(format!(
+                "PointGuess {} {} {}",
+                g.point.0,
+                num(g.guess.x),
+                num(g.guess.y)
+            ));
+        }
+        for g in &self.scalar_guesses {
+            out.push(format!("ScalarGuess {} {}", g.scalar.0, num(g.guess)));
+        }
+        out
+    }
+}
